@@ -8,6 +8,7 @@
 void harness(void)
 {
     xv_ghost_havoc(); xv_fd_havoc(); xv_epoll_havoc(); xv_xpoll_havoc(); xv_afd_havoc();
+    xv_afd_make_list(xv_g_n);
     int e0 = xv_eventfd_calls;
     int rv = active_fd_get();
     if (rv >= 0 && xv_eventfd_calls == e0 && xv_g_n == 1) XV_CANARY("shares the first node");
